@@ -62,9 +62,9 @@ def check(c, viol, counters):
     containers = set()
     for n in art.npu_ops:
         containers |= {n.scratch_tensor, n.scratch_fast_tensor}
-    for i in sg.inputs:
+    for i in list(sg.inputs) + [k_ for k_, T_ in enumerate(sg.tensors) if getattr(T_, "is_variable", False) and T_.data is None]:
         if offs[i] >= 0:
-            sh.define(1, interval(offs[i], art.tensor_bytes(i)))
+            sh.define(1, interval(offs[i], art.tensor_bytes(i)))  # graph inputs and persistent state are defined when the inference starts
     npu_by_index = {n.op_index: n for n in art.npu_ops}
     for k, op in enumerate(sg.ops):
         if k in npu_by_index:
@@ -212,7 +212,7 @@ def run_case(case):
                 # discriminator, every other mechanism on such a network is reported as usual
                 counters["networks_with_batched_pack"] = 1
                 for m in list(viol):
-                    if m == "output-depends-on-arena-poison" or m.startswith("read-of-undefined-bytes:region1:") or m == "npu-output-not-completely-written":
+                    if m == "output-depends-on-arena-poison" or m.startswith("read-of-undefined-bytes:region1:") or m == "npu-output-not-completely-written" or m.startswith("read-of-bytes-last-written-for-another-tensor:"):
                         v_ = viol.pop(m)
                         v_["mech"] = m + ":" + c01.PACK_FEATURE
                         viol[v_["mech"]] = v_
